@@ -43,8 +43,10 @@ VARIANTS = [
       ["R11.2"]),
     # since F14 (products computed before the first store) a factor that cannot multiply a coordinate is rejected
     # before any write even without the float() calls: behaviour-preserving for this property
-    T2("scale-unvalidated-both-levels", [("jordancurve.JordanCurve.scale", "float(yscale)", "pass"),
-                                         ("polygon.Point2D.scale", "float(yscale)", "pass")]),
+    # ... except for a factor beyond the range of floats (10**400): it multiplies the exact coordinates of the first
+    # vertices and fails on the first float one, so without any float() validation the figure is left half scaled
+    M2("scale-unvalidated-both-levels", [("jordancurve.JordanCurve.scale", "float(yscale)", "pass"),
+                                         ("polygon.Point2D.scale", "float(yscale)", "pass")], ["R11.4"]),
     T2("rotate-unvalidated-both-levels", [("jordancurve.JordanCurve.rotate", "float(angle)", "pass"),
                                           ("polygon.Point2D.rotate", "float(angle)", "pass")]),
     M("shape-move-writes-first", "shape.DefinedShape.move", "point = Point2D(*point)\n",
